@@ -4,13 +4,13 @@
 //! Case lines
 //!   `v <fields>`      build the address value through the public constructors, format it, parse the
 //!                     string back.  Output `OK:<fields of the parsed value>:<T|F parsed == original>;<hex of the string>`
-//!                     or `ERR:<class>;<hex of the string>`.
+//!                     or `ERR;<hex of the string>`.
 //!   `p <hex string>`  parse the string.  Output `OK:<fields>;<hex of Display of the parsed value>;<T|F|E>`
-//!                     (last flag: does Display re-parse to an equal value) or `ERR:<class>;;`.
+//!                     (last flag: does Display re-parse to an equal value) or `ERR;;`.
 //! `<fields>` = `<transport>/<key>=<hex of raw value>,...` in Display order, e.g.
 //!   `unix/path=2f746d70,guid=30..`, `nonce-tcp/noncefile=..,host=..,port=<hex of decimal>,bind=..,family=<hex of ipv4>`,
 //!   `vsock/cid=..,port=..`, `unixexec/path=..,argv0=..,argv1=..`.
-//! Error classes: `address` (Error::Address), `guid` (Error::InvalidGUID), `other`.
+//! Every error is printed as `ERR` (which error, and in which order the checks run, is not part of the property).
 use std::ffi::OsString;
 use std::os::unix::ffi::{OsStrExt, OsStringExt};
 use std::path::PathBuf;
@@ -75,13 +75,6 @@ fn fields(a: &Address) -> String {
     format!("{}/{}", name, out.join(","))
 }
 
-fn err_class(e: &zbus::Error) -> &'static str {
-    match e {
-        zbus::Error::Address(_) => "address",
-        zbus::Error::InvalidGUID => "guid",
-        _ => "other",
-    }
-}
 
 /// Build an address value from `<transport>/<k>=<hex>,...` through the public API only.
 fn build(spec: &str) -> Option<Address> {
@@ -164,7 +157,7 @@ fn main() {
                 let shown = a.to_string();
                 let back = match Address::from_str(&shown) {
                     Ok(b) => format!("OK:{}:{}", fields(&b), hcommon::tf(b == a)),
-                    Err(e) => format!("ERR:{}", err_class(&e)),
+                    Err(_) => "ERR".to_string(),
                 };
                 format!("{};{}", back, hcommon::hex(shown.as_bytes()))
             }
@@ -186,7 +179,7 @@ fn main() {
                         };
                         format!("OK:{};{};{}", fields(&a), hcommon::hex(shown.as_bytes()), rt)
                     }
-                    Err(e) => format!("ERR:{};;", err_class(&e)),
+                    Err(_) => "ERR;;".to_string(),
                 }
             }
             _ => "BADCASE".into(),
